@@ -298,7 +298,7 @@ var c15Mut = newPart("C15", "malformed-and-variants",
 	"rapid: (a) malformed strings derived from grammar strings and registered names: a ':' part removed, version changed (OCRA-2, OCRA-10, OCRA-1x, OCRA, empty), crypto function broken (TOTP-, HOTP only, unknown hash SHA3/SHA384/MD5, non-numeric or empty digits, extra part), a data token replaced or appended by an unknown one (X, SFOO, S1, S1234, CX, QX08, QN8, QN008, QN04..QN64 other than 08/10, QA16, PSHA2, PMD5, P, T, TM, T5X, T1D, time tokens in other duration grammars such as T1500MS, T2.5S, T1.5M, T1H30M, T1E3S, T5MIN, T1W, empty token, non-ASCII letters that Unicode-upper-case to ASCII such as U+017F, tokens damaged by invalid UTF-8, any single bit of any byte flipped) => must be rejected when the independent reader calls the result malformed; (b) lower/mixed-case variants of well-formed strings => faithful if accepted, String() is the text as given; (c) unclassified strings (4th part, duplicates, reordering, out-of-range time values) => no panic; oracle: independent name reader; non-trivial = malformed or accepted-variant cases",
 	checkC15)
 
-var badTokens = []string{"X", "SFOO", "S1", "S12", "S1234", "S06A", "CX", "CC", "QX08", "QN8", "QN008", "QN04", "QN09", "QN12", "QN64", "QN99", "QA16", "QH04", "QNAA", "Q", "QN", "PSHA2", "PSHA", "PMD5", "P", "T", "TM", "T5X", "T1D", "TS", "S\xff", "s\xff", "S\xff\xfe", "S06\xff", "QN\xff8", "QN08\xff", "\xffC", "C\xff", "PSHA1\xff", "T1\xffM", "T\xff", "\xff", "S\u00e9", "T1500MS", "T2.5S", "T1.5M", "T.5H", "T1H30M", "T1M30S", "T1000000US", "T1E3S", "T0X10S", "T1_0S", "T+5M", "T5 M", "T٥M", "T5Ｍ", "T5MIN", "T5SEC", "T1W", "T1Y", "T30", "", "Z9", "1", "ſ", "ſ064", "qn08x", "PSHA1X", "C1", "HOTP"}
+var badTokens = []string{"X", "SFOO", "S1", "S12", "S1234", "S06A", "CX", "CC", "QX08", "QN8", "QN008", "QN04", "QN09", "QN12", "QN64", "QN99", "QA16", "QH04", "QNAA", "Q", "QN", "PSHA2", "PSHA", "PMD5", "P", "T", "TM", "T5X", "T1D", "TS", "S\xff", "s\xff", "S\xff\xfe", "S06\xff", "QN\xff8", "QN08\xff", "\xffC", "C\xff", "PSHA1\xff", "T1\xffM", "T\xff", "\xff", "S\u00e9", "T1500MS", "T2.5S", "T1.5M", "T.5H", "T1H30M", "T1M30S", "T1000000US", "T1E3S", "T0X10S", "T1_0S", "T+5M", "T5 M", "T٥M", "T5Ｍ", "T5MIN", "T5SEC", "T1W", "T1Y", "T30", "T0M", "T0H", "T0S", "T00M", "T+0H", "T60S", "T49H", "", "Z9", "1", "ſ", "ſ064", "qn08x", "PSHA1X", "C1", "HOTP"}
 
 func genC15Mut(t *rapid.T) c15Case {
 	var base string
